@@ -965,11 +965,12 @@ fn gen_cross_tape(g: &mut Gen) {
 /// in another order than creation, reset through reordering views
 fn gen_reset_cycles(g: &mut Gen) {
     for kind in ["T", "M"] {
-        let (s1, s2) = if kind == "T" { ("a:2,b:2", "b:2,c:1") } else { ("r:2,c:2", "r:2,c:1") };
+        // non-square on purpose: a block of the wrong size (rows², columns²) shows
+        let (s1, s2) = if kind == "T" { ("a:2,b:3", "b:3,c:1") } else { ("r:2,c:3", "r:3,c:1") };
         for variant in 0..4 {
             g.count("c06.systematic.reset_cycle");
             g.op("@ tapes 1 fp".into());
-            let (vx, vy) = (values(g, 4), values(g, 2));
+            let (vx, vy) = (values(g, 6), values(g, 3));
             g.op(format!("vars x {} {} {} t=0", kind, s1, vx));
             g.op(format!("vars y {} {} {} t=0", kind, s2, vy));
             g.op("matmul z x y via=ref_ref".into());
